@@ -76,6 +76,7 @@ theorem count_ok (as : List Assume) (o : Obj) (pre : List WF) (view vfin : View)
     | lenIs _ _ => simp [isSameLenFor] at hsl
     | lenIsExpr _ _ => simp [isSameLenFor] at hsl
     | elemLen _ _ => simp [isSameLenFor] at hsl
+    | elemSized _ _ => simp [isSameLenFor] at hsl
     | sameLen arr arr' =>
       simp only [isSameLenFor, Bool.and_eq_true, beq_iff_eq, List.any_eq_true] at hsl
       obtain ⟨harr, p, hp, hpc⟩ := hsl
@@ -185,7 +186,7 @@ theorem parseField_emitField (ext : Ext) (as : List Assume) (o : Obj) (pre later
       rw [hw] at he hi
       cases hr : r.item with
       | array cnt elem => rw [hr] at hi; simp [itemCompat] at hi
-      | arrayV cnt segs => rw [hr] at hi; simp [itemCompat] at hi
+      | arrayV cnt segs cmp => rw [hr] at hi; simp [itemCompat] at hi
       | arrayL cnt hw' item => rw [hr] at hi; simp [itemCompat] at hi
       | scalar sz' =>
         rw [hr] at hi
@@ -207,7 +208,7 @@ theorem parseField_emitField (ext : Ext) (as : List Assume) (o : Obj) (pre later
       rw [hw] at he hi
       cases hr : r.item with
       | scalar sz' => rw [hr] at hi; simp [itemCompat] at hi
-      | arrayV cnt segs => rw [hr] at hi; simp [itemCompat] at hi
+      | arrayV cnt segs cmp => rw [hr] at hi; simp [itemCompat] at hi
       | arrayL cnt hw' item => rw [hr] at hi; simp [itemCompat] at hi
       | array cnt elem' =>
         rw [hr] at hi hrest
@@ -250,10 +251,10 @@ theorem parseField_emitField (ext : Ext) (as : List Assume) (o : Obj) (pre later
       | scalar sz' => rw [hr] at hi; simp [itemCompat] at hi
       | array cnt elem => rw [hr] at hi; simp [itemCompat] at hi
       | arrayL cnt hw' item => rw [hr] at hi; simp [itemCompat] at hi
-      | arrayV cnt segs =>
+      | arrayV cnt segs cmp =>
         rw [hr] at hi
-        simp only [itemCompat, Bool.and_eq_true, List.contains_iff_mem] at hi
-        obtain ⟨⟨⟨hsc, hmem⟩, hfresh⟩, hcnt⟩ := hi
+        simp only [itemCompat, Bool.and_eq_true, List.contains_iff_mem, Bool.or_eq_true, Bool.not_eq_true'] at hi
+        obtain ⟨⟨⟨⟨hsc, hmem⟩, hfresh⟩, hsized⟩, hcnt⟩ := hi
         simp only at he ⊢
         split at he
         · rename_i xs hxs
@@ -283,7 +284,23 @@ theorem parseField_emitField (ext : Ext) (as : List Assume) (o : Obj) (pre later
                   simp
               have hcount := cnt_ok as o pre later view vfin w.id fixed cnt (bb ++ rest) (evalSegs view segs) xs
                 hassume hfin hinv hxs hfix hcnt
-              rw [hcount, parseRecs_emitRecs _ xs bb rest hbb']
+              have hn : (if (cmp && elemSize (evalSegs view segs) == 0) = true then 0
+                  else evalCount view (bb ++ rest) (evalSegs view segs) cnt) = xs.length := by
+                rw [hcount]
+                split
+                · rename_i hz
+                  simp only [Bool.and_eq_true, beq_iff_eq] at hz
+                  rcases hsized with hc | hc
+                  · rw [hc] at hz
+                    cases hz.1
+                  · have h1 := hassume _ hc xs hxs
+                    rw [hsegs] at h1
+                    by_cases hx : xs = []
+                    · simp [hx]
+                    · have := h1 hx
+                      omega
+                · rfl
+              simp only [hn, parseRecs_emitRecs _ xs bb rest hbb']
             · cases he
           · cases he
         · cases he
@@ -292,7 +309,7 @@ theorem parseField_emitField (ext : Ext) (as : List Assume) (o : Obj) (pre later
       cases hr : r.item with
       | scalar sz' => rw [hr] at hi; simp [itemCompat] at hi
       | array cnt elem => rw [hr] at hi; simp [itemCompat] at hi
-      | arrayV cnt segs => rw [hr] at hi; simp [itemCompat] at hi
+      | arrayV cnt segs cmp => rw [hr] at hi; simp [itemCompat] at hi
       | arrayL cnt hw'' item' =>
         rw [hr] at hi
         simp only [itemCompat, Bool.and_eq_true, beq_iff_eq] at hi
@@ -455,7 +472,7 @@ theorem parse_emit_aux (ext : Ext) (as : List Assume) (o : Obj) :
               cases r.item with
               | scalar _ => simp [isRestItem]
               | array cnt _ => cases cnt <;> simp [isRestItem]
-              | arrayV cnt _ => simp [isRestItem]
+              | arrayV cnt _ _ => simp [isRestItem]
               | arrayL cnt _ _ => simp [isRestItem]
             subst h1
             -- a `.rest` array is compatible only as the last statement
@@ -468,7 +485,7 @@ theorem parse_emit_aux (ext : Ext) (as : List Assume) (o : Obj) :
               | array elem fixed =>
                 cases r.item with
                 | scalar _ => simp [isRestItem]
-                | arrayV _ _ => simp [isRestItem]
+                | arrayV _ _ _ => simp [isRestItem]
                 | arrayL _ _ _ => simp [isRestItem]
                 | array cnt _ =>
                   cases cnt <;> simp [itemCompat, isRestItem]
